@@ -152,11 +152,18 @@ fn build_compare_op(
         CompareOp::Eq => (
             quote!(),
             quote! {
+                // The assertions live in an impl block, so that key expressions can use `Self`.
                 const _: () = {
+                    trait __DeriveExEqCheck {
+                        fn __derive_ex_eq_check(&self);
+                    }
                     #[allow(clippy::double_parens)]
                     #[allow(unused_parens)]
-                    fn __derive_ex_eq_check #impl_g (__this: &#this_ty) #wheres {
-                        #body
+                    impl #impl_g __DeriveExEqCheck for #this_ty #wheres {
+                        fn __derive_ex_eq_check(&self) {
+                            let __this = self;
+                            #body
+                        }
                     }
                 };
             },
